@@ -94,6 +94,17 @@ def corpus():
         "get 0 tkids 102;addt 0 l2 2;get 0 mate 106",
         "obs|3|N,N,N|obs 0 0 any.1 any.1 then;addt 0 l2 0;addt 0 l2 0;addt 0 l2 1;get 0 l2 100;la 100 1;addt 1 l2 0",
         "#obs|3|N,N,N|obs 0 0 any.1;obs 0 1 any.1;adhoc 0 1;adhoc 1 2",
+        # a cycle through the root under a chain longer than the cycle: the same trait is the link at depth 1 and
+        # at depth 3; cutting it relies on call_notifiers running its SNAPSHOT (the depth-3 maintainer, unhooked by
+        # the depth-1 maintainer during the dispatch, still has to run).  The pinned tree is right here.
+        "obs|3|N,N,N|obs 0 0 t.child.0.0 t.child.0.0 then t.child.0.0 then t.value.1.0 then;set 0 child 1;set 1 child 0;"
+        "set 0 child N;set 0 child 2",
+        "obs|3|N,N,N|obs 0 0 t.child.1.0 t.child.1.0 then t.child.1.0 then t.value.1.0 then;set 1 child 0;set 0 child 1;"
+        "set 0 child N;set 0 child 2;set 2 child 1",
+        "obs|3|N,N,N|set 0 child 1;set 1 child 0;obs 0 0 t.child.1.0 t.child.0.0 then t.child.1.0 then t.child.0.0 then "
+        "t.value.1.0 then;set 0 child N;set 0 child 1;set 1 child N",
+        "obs|3|N,N,N|setl 0 kids 100 [1];setl 1 kids 102 [0];obs 0 0 t.kids.1.0 li.1.0 then t.kids.1.0 then li.1.0 then "
+        "t.kids.1.0 then li.1.0 then t.value.1.0 then;setl 0 kids 104 [];lc 102",
         # a CONSTANT default that is an observable object shared by all instances (header `S`), read after observe()
         "obs|3|N,N,SN|obs 0 0 t.shared.1.0 t.value.1.0 then;get 0 shared 100;get 1 shared 102;set 0 shared 1;addt 0 extra 1",
         "obs|3|SN,N,N|obs 0 1 t.shared.0.0 t.shared.1.0 then t.value.1.0 then;get 1 shared 100;get 0 shared 102;set 1 shared 2",
@@ -139,6 +150,8 @@ def generate(rng, tier):
         yield O.history_cont(rng)
     for _ in range(nh // 8):
         yield O.history_const(rng)
+    for _ in range(nh // 10):
+        yield O.history_cycle(rng)
 
 
 def run_impl(case):
